@@ -366,7 +366,7 @@ func TestVerifWireCorr(t *testing.T) {
 	opts.LogLevel = LOG_FATAL
 	opts.DataPath = t.TempDir()
 	opts.MemQueueSize = 100000
-	_, httpAddr, nsqd := mustStartNSQD(opts)
+	_, httpAddr, nsqd := vfStartNSQD(opts)
 	defer nsqd.Exit()
 	defer vfE1PanicGuard("a codec call", out)()
 	e := &vfE1WireEnv{t: t, nsqd: nsqd, httpAddr: httpAddr, topic: nsqd.GetTopic("vf_wire"), hist: map[string]int{}}
